@@ -117,7 +117,7 @@ def launchExtensions (s : State) (ph : Phase) : List String → State
     let a : Agent := { name := p, ext := true, serial := s.nextSerial }
     let s := { s with agents := s.agents ++ [a], nextSerial := s.nextSerial + 1 }
     if s.agents.length > maxAgents then
-      let s := setAgent s { a with st := .launchError, errSet := true, errType := "Extension.LaunchError" }
+      let s := setAgent s { a with st := .launchError, errSet := true, errType := "TooManyExtensions" }
       initFinish (storeFatal s "Extension.LaunchError") ph false "success" none
     else
       let pr : Proc := { name := p, gen := s.gen, chanCreated := true }
